@@ -63,8 +63,45 @@ def param_sets(tier, seed):
                             if sum(d.values()) == 0:
                                 d[s2c[s][0]] = 1
                             sup[b][s] = d
-                    out.append(dict(blocs=blocs, s2c=s2c, props=props, coh=coh, sup=sup))
+                    # order: how the caller's dicts list blocs/slates (0 = everything in bloc_voter_prop order; the models
+                    # are functions of the named entries, never of the listing order)
+                    out.append(dict(blocs=blocs, s2c=s2c, props=props, coh=coh, sup=sup, order=(len(out) % 4 if nb == 2 else 0)))
+    # three slates with unequal cohesion shares (the share of a used-up slate is redistributed proportionally)
+    triples = [(0.6, 0.3, 0.1), (0.2, 0.5, 0.3), (0.1, 0.1, 0.8), (1.0, 0.0, 0.0)]
+    for j, sizes in enumerate([(1, 1, 1), (2, 1, 1), (1, 2, 2), (2, 2, 1)][: 3 if tier == "quick" else 4]):
+        props = {"W": 0.5, "C": 0.3, "T": 0.2}
+        blocs = list(props)
+        s2c = {b: [f"{b}{i + 1}" for i in range(sz)] for b, sz in zip(blocs, sizes)}
+        coh = {}
+        for bi, b in enumerate(blocs):
+            t = triples[(j + bi) % len(triples)]
+            others = [o for o in blocs if o != b]
+            coh[b] = {b: t[0], others[0]: t[1], others[1]: t[2]}
+        sup = {b: {s_: {c: rng.choice([0.1, 1, 3]) for c in s2c[s_]} for s_ in blocs} for b in blocs}
+        out.append(dict(blocs=blocs, s2c=s2c, props=props, coh=coh, sup=sup, order=j % 4))
     return out
+
+
+def taxicab(a, b):
+    import numpy as np
+    return float(np.sum(np.abs(np.asarray(a, dtype=float) - np.asarray(b, dtype=float))))
+
+
+def _ordered(ps):
+    """the constructor arguments with the listing orders of the parameter set's `order` variant"""
+    from votekit.pref_interval import PreferenceInterval
+    o = ps.get("order", 0)
+    blocs = list(ps["blocs"])
+    outer = blocs[::-1] if o == 1 else blocs
+    pis = {}
+    for b in outer:
+        inner = blocs[::-1] if o == 2 else ([b] + [x for x in blocs if x != b] if o == 3 else blocs)
+        pis[b] = {s_: PreferenceInterval(dict(ps["sup"][b][s_])) for s_ in inner}
+    coh = {}
+    for b in (blocs[::-1] if o == 3 else blocs):
+        inner = blocs[::-1] if o == 1 else blocs
+        coh[b] = {s_: ps["coh"][b][s_] for s_ in inner}
+    return pis, coh
 
 
 def build(name, ps, extra=None):
@@ -73,8 +110,8 @@ def build(name, ps, extra=None):
     import votekit.ballot_generator as bg
     from votekit.pref_interval import PreferenceInterval
     cands = [c for b in ps["blocs"] for c in ps["s2c"][b]]
-    pis = {b: {s: PreferenceInterval(dict(ps["sup"][b][s])) for s in ps["blocs"]} for b in ps["blocs"]}
-    common = dict(pref_intervals_by_bloc=pis, bloc_voter_prop=dict(ps["props"]), cohesion_parameters={b: dict(v) for b, v in ps["coh"].items()})
+    pis, coh_arg = _ordered(ps)
+    common = dict(pref_intervals_by_bloc=pis, bloc_voter_prop=dict(ps["props"]), cohesion_parameters=coh_arg)
     if name == "ImpartialCulture":
         return bg.ImpartialCulture(candidates=cands[:4])
     if name == "ImpartialAnonymousCulture":
@@ -104,10 +141,15 @@ def build(name, ps, extra=None):
         if extra == "defaults":
             return bg.Spatial(candidates=cands)
         kw = {"low": 0.0, "high": 1.0, "size": 2}
+        if extra == "taxicab":
+            return bg.Spatial(candidates=cands, voter_dist_kwargs=dict(kw), candidate_dist_kwargs=dict(kw), distance=taxicab)
         return bg.Spatial(candidates=cands, voter_dist_kwargs=dict(kw), candidate_dist_kwargs=dict(kw))
     if name == "ClusteredSpatial":
         if extra == "defaults":
             return bg.ClusteredSpatial(candidates=cands)
+        if extra == "taxicab":
+            return bg.ClusteredSpatial(candidates=cands, voter_dist_kwargs={"loc": 0, "scale": 1.0, "size": 2},
+                                       candidate_dist_kwargs={"low": 0.0, "high": 1.0, "size": 2}, distance=taxicab)
         return bg.ClusteredSpatial(candidates=cands, voter_dist_kwargs={"loc": 0, "scale": 1.0, "size": 2},
                                    candidate_dist_kwargs={"low": 0.0, "high": 1.0, "size": 2})
     raise KeyError(name)
@@ -117,6 +159,8 @@ def applicable(name, ps):
     nb = len(ps["blocs"])
     if name in ("AlternatingCrossover", "CambridgeSampler") and nb != 2:
         return False
+    if name in ("slate_BradleyTerry", "slate_BradleyTerry.MCMC") and nb > 2:
+        return False  # the constructor refuses more than two blocs
     return True
 
 
